@@ -76,6 +76,10 @@ def self_test(chk, pid: str) -> None:
     # whole-package behaviour-preserving twins: every function-local renamed; every module re-emitted by ast.unparse
     jobs.append(("autotwin", "twin-rename-all-locals", {"mode": "rename", "expect": "silent"}))
     jobs.append(("autotwin", "twin-reformat-all-modules", {"mode": "format", "expect": "silent"}))
+    jobs.append(("autotwin", "twin-reverse-keyword-arguments", {"mode": "kwreverse", "expect": "silent"}))
+    jobs.append(("autotwin", "twin-swap-symmetric-comparisons", {"mode": "cmpswap", "expect": "silent"}))
+    jobs.append(("autotwin", "twin-invert-if-else", {"mode": "ifswap", "expect": "silent"}))
+    jobs.append(("autotwin", "twin-early-return-to-else", {"mode": "elseify", "expect": "silent"}))
     with ThreadPoolExecutor(max_workers=min(16, len(jobs))) as ex:
         res = list(ex.map(lambda j: _run_variant(pid, *j), jobs))
     want_v = [r for r in res if r.get("expect", "violation") == "violation" and "rc" in r]
